@@ -12,16 +12,54 @@ template <class T> static void run_T(Choice &c, Ctx &cx)
     unsigned pk = c.below(8);
     // larger orders for a part of the cases: MC64's heap (removal from the middle, several augmenting passes) only gets
     // deep enough from about order 10 with fairly full columns
-    if (c.chance(28)) n = 24 + (int)c.below(cx.tier > 0 ? 70u : 40u);
+    bool big = false;
+    if (c.chance(28)) { n = 24 + (int)c.below(cx.tier > 0 ? 70u : 40u); big = true; }
     PatMode pm = pk <= 4 ? PAT_NONSING : (pk <= 6 ? PAT_ANY : PAT_SINGULAR);
     std::string family;
+    // The choice stream is a few hundred bytes long and reads as zero past its end, so an order-60 matrix with thousands of
+    // entries cannot take each value from it: the values would all tie.  Most large cases are therefore synthesised from a
+    // 64-bit value taken from the stream (a pure function of the stream, so replay and shrinking are unaffected): a hidden
+    // transversal plus entries of the chosen density, magnitudes pairwise distinct by construction in every precision
+    // (evenly spaced in [0.5,1), optionally times a power of two), random signs.
+    const bool synth = big && c.chance(176);
+    GMat G;
+    if (synth) {
+        uint64_t sd = 0; for (int k = 0; k < 8; ++k) sd = (sd << 8) | c.u8();
+        auto mix = [](uint64_t x) { x += 0x9E3779B97F4A7C15ULL; x = (x ^ (x >> 30)) * 0xBF58476D1CE4E5B9ULL; x = (x ^ (x >> 27)) * 0x94D049BB133111EBULL; return x ^ (x >> 31); };
+        unsigned dens = 8 + c.below(93);            // percent
+        unsigned scale = c.below(4);                // 0,1: none; 2: 2^+-8; 3: 2^+-40 (2^+-20 in single precision)
+        int K = scale <= 1 ? 0 : (scale == 2 ? 8 : (single ? 20 : 40));
+        std::vector<int> tr(n); for (int i = 0; i < n; ++i) tr[i] = i;
+        for (int i = 0; i + 1 < n; ++i) { int j = i + (int)(mix(sd ^ (0xA11CEULL + (uint64_t)i)) % (uint64_t)(n - i)); std::swap(tr[i], tr[j]); }
+        G.m = G.n = n; G.col.resize(n);
+        std::vector<std::pair<uint64_t, std::pair<int, int>>> ord;
+        for (int j = 0; j < n; ++j) for (int i = 0; i < n; ++i) {
+            uint64_t h = mix(sd ^ ((uint64_t)i * 1315423911ULL + (uint64_t)j * 2654435761ULL + 77));
+            bool in = (pm != PAT_SINGULAR && tr[j] == i) || (h % 100) < dens;
+            if (pm == PAT_SINGULAR && (i < 2 + (int)(sd % 3)) ) in = false;   // empty rows: no zero-free diagonal
+            if (in) ord.push_back({mix(h), {i, j}});
+        }
+        std::sort(ord.begin(), ord.end());
+        size_t N = ord.size();
+        for (size_t r = 0; r < N; ++r) {
+            int i = ord[r].second.first, j = ord[r].second.second; uint64_t h = ord[r].first;
+            double a = 0.5 + ((double)r + 0.5) / (2.0 * (double)N);
+            if (K) a = std::ldexp(a, (int)(mix(h ^ 5) % (uint64_t)(2 * K + 1)) - K);
+            if (h & 1) a = -a;
+            Val v; if (cplx && (h & 2)) { v.re = 0; v.im = a; } else { v.re = a; v.im = 0; }
+            G.col[j].push_back({i, v});
+        }
+        for (auto &col : G.col) std::sort(col.begin(), col.end(), [](const std::pair<int, Val> &x, const std::pair<int, Val> &y) { return x.first < y.first; });
+        G.family = fmt("synth-dense%u", dens / 25 * 25); G.vkind = K ? "distinct+scaled" : "distinct";
+    } else {
     auto pat = gen_pattern(c, n, n, pm, family);
-    GMat G = gen_values(c, n, n, pat, cplx, single, family);
+    G = gen_values(c, n, n, pat, cplx, single, family);
     // widen the magnitude range for some cases (MC64 works on logarithms)
     unsigned wide = c.below(6);
     // (structurally singular patterns get the widest range more often: MC64's 'scaling may overflow' warning must not hide singularity)
     if (pm == PAT_SINGULAR && wide >= 2 && wide <= 3) wide = 5;
     if (wide >= 4) { int K = single ? 30 : (wide == 5 ? 400 : 120); for (auto &col : G.col) for (auto &e : col) { unsigned b = c.u8(); int s = (wide == 5 && (b & 0x80)) ? ((b & 1) ? K : -K) : zigzag((uint8_t)b, K); e.second.re = std::ldexp(e.second.re, s); e.second.im = std::ldexp(e.second.im, s); } G.vkind += "+wide"; }
+    }
     // explicit zeros are outside MC64's input contract ("the numerical values of the nonzero entries"): remove them
     for (auto &col : G.col) { std::vector<std::pair<int, Val>> keep; for (auto &e : col) if (e.second.re != 0 || e.second.im != 0) keep.push_back(e); col.swap(keep); }
     bool exsing = maybe_exactly_singular(G);
@@ -96,6 +134,8 @@ template <class T> static void run_T(Choice &c, Ctx &cx)
     bool scal_open = tie_class; bool scal_bad = false;
     for (int i = 0; i < n; ++i) {
         int j = perm[i];
+        // F-MC64, same root cause: with ties the inconsistent tree arrays can also yield a bijection that sits on an entry that is not stored
+        if (tie_class && !has[i][j]) { cx.exclude("F-MC64"); cx.label("F-MC64:zero-on-diagonal"); return; }
         VF_REQUIRE(cx, has[i][j], "zero-on-diagonal", "row %d is moved to position %d but a(%d,%d) is zero or not stored", i, j, i, j);
         LD s = la(i, j) + (LD)u[i] + (LD)v[j];
         if (!(std::fabs(s) <= tol)) { if (scal_open) scal_bad = true; else VF_FAIL(cx, "unit-diagonal", "scaled diagonal entry |a(%d,%d)|*exp(u+v) = exp(%Lg), not 1 (tol %Lg)", i, j, s, tol); }
